@@ -65,7 +65,7 @@ def structural(tree, src):
                 else:
                     if c0 > len(lines[l0 - 1].rstrip("\r\n")):
                         problems.append(f"{cls.__name__} start col beyond line {a}")
-                    if c1 > len(lines[l1 - 1].rstrip("\r\n")):
+                    if c1 > len(lines[l1 - 1]):  # (a raw macro argument may end after its line's terminator)
                         problems.append(f"{cls.__name__} end col beyond line {a}")
         for (cn, fn) in STORE_FIELDS:
             if cls.__name__ == cn and hasattr(node, fn):
